@@ -339,7 +339,7 @@ func voHasPrefixKey(set voMap, p []byte) bool {
 // voClass computes the input class of an operation from the specification's state
 // BEFORE the step.  Each feature names one mechanism of storageDiff / TrieState that the
 // operation touches; "plain" = none of them.
-func voClass(o voOp, pre voObs) (ctx string, class string) {
+func voClass(o voOp, pre voObs, reset bool) (ctx string, class string) {
 	ctx = "direct"
 	if pre.Nest > 0 {
 		ctx = "in-tx"
@@ -414,6 +414,9 @@ func voClass(o voOp, pre voObs) (ctx string, class string) {
 				}
 			}
 			add(hit, "main-tombstone-names-live-child")
+			// storageDiff.upsertChild leaves the key in the child's `deletes`; applyToTrie
+			// puts the value and then clears it again
+			add(reset, "child-key-deleted-then-set")
 		} else {
 			ctx = "nested"
 		}
@@ -488,13 +491,22 @@ func TestVerifOverlay(t *testing.T) {
 			pre.Base.K = append(pre.Base.K, voChildJ{C: c.C})
 		}
 		var prefix []json.RawMessage
+		var reset []map[string]bool // per open transaction: "child|key" tombstoned, then set again
 		for si, s := range steps {
 			prefix = append(prefix, b.Steps[si])
 			if si == 0 {
 				res.Sample(b.Steps[:min(len(b.Steps), 8)])
 			}
 			o := s.O
-			ctx, class := voClass(o, pre)
+			// mirror of "key is in both upserts and deletes of a child diff", per open transaction
+			if pre.Nest > 0 && len(reset) != pre.Nest {
+				t.Fatalf("VERIF-INFRA reset stack %d nest %d", len(reset), pre.Nest)
+			}
+			topReset := false
+			if pre.Nest > 0 {
+				topReset = len(reset[pre.Nest-1]) > 0
+			}
+			ctx, class := voClass(o, pre, topReset)
 			expView := voView(s.Obs)
 			if voEqualChildren(expView) || voEqualChildren(voView(pre)) || voEqualChildren(voStateOf(s.Obs.Base)) {
 				class += "+equal-children"
@@ -575,7 +587,10 @@ func TestVerifOverlay(t *testing.T) {
 						checkErr(err)
 					}
 				case "CClearPrefix":
-					checkErr(ts.ClearPrefixInChild(c, p))
+					err := ts.ClearPrefixInChild(c, p)
+					if err != nil && !(errors.Is(err, trie.ErrChildTrieDoesNotExist) && len(preView.k[string(c)]) == 0) {
+						checkErr(err)
+					}
 				case "CClearPrefixLimit":
 					del, all, err := ts.ClearPrefixInChildWithLimit(c, p, o.N)
 					if pre.Nest == 0 && len(preView.k[string(c)]) == 0 {
@@ -740,7 +755,47 @@ func TestVerifOverlay(t *testing.T) {
 					}
 				}
 			}
+			if !failed {
+				ck := string(o.C.Bytes()) + "|" + string(o.K.Bytes())
+				switch {
+				case o.Op == "Start":
+					cp := map[string]bool{}
+					if len(reset) > 0 {
+						for x := range reset[len(reset)-1] {
+							cp[x] = true
+						}
+					}
+					reset = append(reset, cp)
+				case o.Op == "Rollback":
+					reset = reset[:len(reset)-1]
+				case o.Op == "Commit":
+					top := reset[len(reset)-1]
+					reset = reset[:len(reset)-1]
+					if len(reset) > 0 {
+						reset[len(reset)-1] = top
+					}
+				case pre.Nest > 0 && o.Op == "CSet":
+					if voTopDiff(pre).kdel[string(o.C.Bytes())][string(o.K.Bytes())] || reset[len(reset)-1][ck] {
+						reset[len(reset)-1][ck] = true
+					}
+				case pre.Nest > 0 && o.Op == "CClear":
+					delete(reset[len(reset)-1], ck)
+				case pre.Nest > 0 && (o.Op == "CClearPrefix" || o.Op == "CClearPrefixLimit" || o.Op == "DeleteChild" || o.Op == "DeleteChildAll" || o.Op == "DeleteChildLimit"):
+					// keys the specification tombstones now are consistent again (delete() drops the upsert)
+					post := voTopDiff(s.Obs)
+					for x := range reset[len(reset)-1] {
+						parts := strings.SplitN(x, "|", 2)
+						if parts[0] == string(o.C.Bytes()) && post.kdel[parts[0]][parts[1]] {
+							delete(reset[len(reset)-1], x)
+						}
+					}
+				}
+			}
 			if failed {
+				reset = make([]map[string]bool, s.Obs.Nest)
+				for i := range reset {
+					reset[i] = map[string]bool{}
+				}
 				nts, err := voBuild(s.Obs)
 				ok := err == nil
 				if ok {
